@@ -16,10 +16,10 @@ Caps == {"plain", "checker", "transformer", "both", "none"}
 ShapeTree(p) == [i \in DOMAIN p |-> IF KidsIn(p, i) = <<>> THEN Nd("term", "", <<>>) ELSE Nd("nt", "plain", KidsIn(p, i))]
 \* labelled: a leaf is a terminal, an Empty node or a childless non-terminal of any capability
 LeafOpts == {Nd("term", "", <<>>), Nd("empty", "", <<>>)} \cup {Nd("nt", c, <<>>) : c \in Caps}
+LeafIdx(p) == {i \in DOMAIN p : KidsIn(p, i) = <<>>}
 LabelledTrees(p) ==
-  {t \in [DOMAIN p -> LeafOpts \cup {Nd("nt", c, KidsIn(p, i)) : c \in Caps, i \in DOMAIN p}] :
-     \A i \in DOMAIN p : IF KidsIn(p, i) = <<>> THEN t[i] \in LeafOpts
-                         ELSE t[i].k = "nt" /\ t[i].kids = KidsIn(p, i)}
+  {[i \in DOMAIN p |-> IF i \in LeafIdx(p) THEN l[i] ELSE Nd("nt", c[i], KidsIn(p, i))] :
+      l \in [LeafIdx(p) -> LeafOpts], c \in [(DOMAIN p) \ LeafIdx(p) -> Caps]}
 AllTrees == UNION {IF Labelled THEN UNION {LabelledTrees(p) : p \in ParentVecs(n)} ELSE {ShapeTree(p) : p \in ParentVecs(n)} : n \in 1..MaxNodes}
 AllStops == 0..(MaxNodes + 2)
 Bools == {TRUE, FALSE}
